@@ -5,7 +5,7 @@
    ordinary unit id). NoAuth is the only configuration an RTU server can have; with an
    authorization handler the single exception to C17_silent is the deny veto (C08_deny_unconfigured). *)
 From Coq Require Import NArith Arith List String.
-From Rodbus Require Import Base.Outcome Base.ServerTypes Model.Server Model.ServerExec Spec.Modbus
+From Rodbus Require Import Base.Outcome Base.ServerTypes Model.Server Model.ServerRender Model.ServerExec Spec.Modbus
   Proofs.ServerParse Proofs.ServerProofs Proofs.ServerProps Proofs.ServerTheorems.
 Import ListNotations.
 Local Open Scope N_scope.
